@@ -313,7 +313,7 @@ def str_image(v_in: str, out) -> bool:
     string, or (MultiInputObj) a one-element list wrapping such an image -- never a container of its pieces."""
     if isinstance(out, (str, os.PathLike)):
         return True
-    if type(out) is list and len(out) == 1:
+    if isinstance(out, list) and len(out) == 1:  # list or MultiInputObj wrapping the whole string
         return str_image(v_in, out[0])
     return False
 
@@ -322,7 +322,8 @@ def no_str_seq_confusion(v_in, out) -> bool:
     if isinstance(v_in, str):
         return str_image(v_in, out) and not (isinstance(out, str) and out != v_in)
     if isinstance(v_in, CONTAINER_TYPES) and isinstance(out, str):
-        return False
+        # a container "joined" into a string; taking out its single element (MultiOutputObj) is not a join
+        return len(v_in) == 1 and all(type(x) is str and x == out for x in v_in)
     return True
 
 
@@ -347,26 +348,453 @@ def _elems_json(v):
     return []
 
 
-def d13_match(t, v) -> bool:
-    """Some position of the coercion of JSON value v by JSON type t presents a str to a D13 origin
-    (over-approximating union alternatives: any alternative counts)."""
+def _hit(pb, pg, t, v, pu=None) -> bool:
+    """Mirror of Lean `hit`: some position (pattern, value) reachable by the coercion satisfies
+    pb (basic pattern) / pg (generic origin) / pu (union node)."""
     k = t[0]
-    is_str = v[0] == "a" and v[1] == "str"
     if k == "any":
         return False
     if k == "c":
-        return is_str and t[1] in D13_BASIC_TARGETS
+        return pb(t[1], v)
     if k == "u":
-        return any(d13_match(a, v) for a in t[1])
+        return (pu is not None and pu(t[1], v)) or any(_hit(pb, pg, a, v, pu) for a in t[1])
     if k == "tv":
-        return any(d13_match(t[1], x) for x in _elems_json(v)) if not is_str else False
+        return pg("tuple", v, None) or any(_hit(pb, pg, t[1], x, pu) for x in _elems_json(v))
     o, args = t[1], t[2]
     if o == "MultiInputObj":
-        return any(d13_match(args[0], x) for x in [v] + (_elems_json(v) if not is_str else []))
-    if is_str:
-        return o in D13_GEN_ORIGINS
-    if v[0] == "m" and len(args) == 2:
-        return any(d13_match(args[0], x) for x in v[2]) or any(d13_match(args[1], x) for x in v[3])
+        return len(args) == 1 and (_hit(pb, pg, args[0], v, pu) or any(_hit(pb, pg, args[0], x, pu) for x in _elems_json(v)))
+    if pg(o, v, args):
+        return True
     if o == TUPLE_ORIGIN:
-        return any(d13_match(a, x) for a, x in zip(args, _elems_json(v)))
-    return any(d13_match(a, x) for a in args[:1] for x in _elems_json(v))
+        return any(_hit(pb, pg, a, x, pu) for a, x in zip(args, _elems_json(v)))
+    if len(args) == 1:
+        return any(_hit(pb, pg, args[0], x, pu) for x in _elems_json(v))
+    if len(args) == 2:  # key / value patterns of a mapping origin
+        vals = v[3] if v[0] == "m" else []
+        return any(_hit(pb, pg, args[0], x, pu) for x in _elems_json(v)) or any(_hit(pb, pg, args[1], x, pu) for x in vals)
+    return False
+
+
+def _is_str(v):
+    return v[0] == "a" and v[1] == "str"
+
+
+def d13_match(t, v) -> bool:  # noqa: F811  (replaces the sketch above)
+    return _hit(lambda c, x: _is_str(x) and c in D13_BASIC_TARGETS, lambda o, x, a: _is_str(x) and o in D13_GEN_ORIGINS, t, v)
+
+
+SETLIKE_VALUE_CLASSES = {"set", "frozenset", "dict_keys"}
+
+
+def d13b_match(t, v) -> bool:
+    """D13b: a set-like container reaches the basic pattern `str` (stored as its repr)."""
+    return _hit(lambda c, x: x[0] == "s" and x[1] in SETLIKE_VALUE_CLASSES and c == "str", lambda o, x, a: False, t, v)
+
+
+def bytes_at_gen(t, v) -> bool:
+    return _hit(lambda c, x: False, lambda o, x, a: x[0] == "a" and x[1] == "bytes", t, v)
+
+
+# D13c: with superclass_auto_cast (the field parser) a `bytes` object that is an instance of an abstract generic
+# origin is expanded into ints, the ints are coerced (int -> bool is a "super-to-sub" cast) and re-packed by bytes(...)
+D13C_ORIGINS = {"Sequence", "Iterable", "Collection"}
+
+
+def d13c_match(sac: bool, t, v) -> bool:
+    return sac and _hit(lambda c, x: False, lambda o, x, a: x[0] == "a" and x[1] == "bytes" and o in D13C_ORIGINS, t, v)
+
+
+def union_unstable(sac: bool, alts, xj) -> bool:
+    """D13u at one union node, decided with the real parser on the alternatives: the first alternative that
+    accepts x yields y, and an *earlier* alternative accepts y with a different result (or raises a non-TypeError)."""
+    from pydra.utils.typing import TypeParser
+
+    x = val_to_py(xj)
+    y = None
+    first = None
+    for i, a in enumerate(alts):
+        try:
+            y = TypeParser(ty_to_py(a), superclass_auto_cast=sac).coerce(x)
+            first = i
+            break
+        except TypeError:
+            continue
+        except Exception:
+            return False
+    if first is None:
+        return False
+    try:
+        yj = sort_sets(canon(y))
+    except Uncodable:
+        return False
+    for a in alts[:first]:
+        try:
+            y2 = TypeParser(ty_to_py(a), superclass_auto_cast=sac).coerce(y)
+        except TypeError:
+            continue
+        except Exception:
+            return True
+        try:
+            if sort_sets(canon(y2)) != yj:
+                return True
+        except Uncodable:
+            return True
+    return False
+
+
+def d13u_match(sac: bool, t, v) -> bool:
+    """D13u: some union node of the type re-resolves to an earlier alternative on the stored value."""
+    return _hit(lambda c, x: False, lambda o, x, a: False, t, v, pu=lambda alts, x: union_unstable(sac, alts, x))
+
+
+# --------------------------------------------------------------------------------------
+# generators
+
+STR_POOL = ["", "a", "abc", "a b", "it's", 'q"', "a/b", "/tmp/x", "a//b/", "é", "['a']", "\\", "x\ny", "12", "."]
+PATH_POOL = ["a", "a/b", "/tmp/x", ".", "..", "x.txt"]
+INT_POOL = [0, 1, 2, 5, -3, 97, 255, 256, 300, 10**20]
+BYTES_POOL = [[], [97, 98], [0, 255], [105, 116, 39, 115], [1]]
+
+BASIC_COMMON = ["int", "float", "bool", "str", "bytes", "NoneType", "Path"]
+BASIC_CONTAINER = ["list", "tuple", "set", "frozenset", "dict", "MultiInputObj"]
+BASIC_ABSTRACT = ["object", "PathLike", "PosixPath", "Sequence", "Mapping", "SetABC", "Iterable", "Collection", "MutableSequence",
+                  "MutableSet", "MutableMapping", "range", "MultiOutputType"]  # fmt: skip
+
+MULTI_OUTPUT_OBJ = ["u", [["c", "list"], ["c", "object"], ["c", "MultiOutputType"]]]
+
+
+def mk_union(alts):
+    """Union the way typing builds it: nested unions flattened, duplicates dropped, a single alternative collapses."""
+    import json
+
+    flat = []
+    for a in alts:
+        flat.extend(a[1] if a[0] == "u" else [a])
+    seen, out = set(), []
+    for a in flat:
+        k = json.dumps(a)
+        if k not in seen:
+            seen.add(k)
+            out.append(a)
+    if not out:
+        return ["c", "NoneType"]
+    return out[0] if len(out) == 1 else ["u", out]
+
+
+def gen_basic(rng):
+    r = rng.random()
+    if r < 0.62:
+        return ["c", rng.choice(BASIC_COMMON)]
+    if r < 0.80:
+        return ["c", rng.choice(BASIC_CONTAINER)]
+    if r < 0.92:
+        return ["c", rng.choice(BASIC_ABSTRACT)]
+    return ["any"]
+
+
+def gen_type(rng, depth: int, allow_union: bool = True):
+    """A well-formed type of nesting depth <= depth."""
+    import json
+
+    if depth <= 0 or rng.random() < 0.22:
+        return gen_basic(rng)
+    r = rng.random()
+    if r < 0.22 and allow_union:
+        n = rng.choice([2, 2, 2, 3])
+        alts, seen = [], set()
+        for _ in range(n * 3):
+            a = gen_type(rng, depth - (0 if rng.random() < 0.5 else 1), allow_union=False)
+            key = json.dumps(a)
+            if key not in seen:
+                seen.add(key)
+                alts.append(a)
+            if len(alts) == n:
+                break
+        if len(alts) < 2:
+            return gen_basic(rng)
+        if rng.random() < 0.3 and ["c", "NoneType"] not in alts:
+            alts[-1] = ["c", "NoneType"]  # Optional[...]
+        return ["u", alts]
+    if r < 0.60:
+        o = rng.choice(["list", "list", "list", "set", "frozenset", "Sequence", "Sequence", "MutableSequence", "SetABC", "MutableSet",
+                        "Iterable", "Collection"])  # fmt: skip
+        return ["g", o, [gen_type(rng, depth - 1)]]
+    if r < 0.74:
+        o = rng.choice(["dict", "dict", "Mapping", "MutableMapping"])
+        kt = gen_type(rng, 0) if rng.random() < 0.8 else gen_type(rng, depth - 1)
+        return ["g", o, [kt, gen_type(rng, depth - 1)]]
+    if r < 0.86:
+        n = rng.choice([1, 2, 2, 3])
+        return ["g", "tuple", [gen_type(rng, depth - 1) for _ in range(n)]]
+    if r < 0.93:
+        return ["tv", gen_type(rng, depth - 1)]
+    return ["g", "MultiInputObj", [gen_type(rng, depth - 1)]]
+
+
+def gen_atom(rng, cls=None):
+    cls = cls or rng.choice(["int", "int", "str", "str", "float", "bool", "NoneType", "bytes", "PosixPath"])
+    if cls == "NoneType":
+        return ["a", "NoneType", None]
+    if cls == "bool":
+        return ["a", "bool", rng.choice([0, 1])]
+    if cls == "int":
+        return ["a", "int", rng.choice(INT_POOL)]
+    if cls == "float":
+        return ["a", "float", rng.choice([0, 1, 2, -3, 300])]
+    if cls == "str":
+        return ["a", "str", rng.choice(STR_POOL)]
+    if cls == "bytes":
+        return ["a", "bytes", list(rng.choice(BYTES_POOL))]
+    if cls == "PosixPath":
+        return ["a", "PosixPath", rng.choice(PATH_POOL)]
+    raise ValueError(cls)
+
+
+def _hashable_json(v) -> bool:
+    if v[0] == "a":
+        return True
+    if v[0] == "s":
+        return v[1] in ("tuple", "frozenset", "range") and all(_hashable_json(x) for x in v[2])
+    return False
+
+
+def gen_any_value(rng, depth: int = 2):
+    if depth <= 0 or rng.random() < 0.55:
+        return gen_atom(rng)
+    r = rng.random()
+    n = rng.choice([0, 1, 2, 2, 3])
+    if r < 0.8:
+        c = rng.choice(["list", "list", "tuple", "set", "frozenset", "MultiInputObj"])
+        items = [gen_any_value(rng, depth - 1) for _ in range(n)]
+        if c in ("set", "frozenset"):
+            items = [x for x in items if _hashable_json(x)]
+        return ["s", c, items]
+    ks = [gen_atom(rng, rng.choice(["str", "int"])) for _ in range(n)]
+    return ["m", "dict", ks, [gen_any_value(rng, depth - 1) for _ in range(n)]]
+
+
+def _subclasses(name: str, pool: list[str]) -> list[str]:
+    uni = universe()
+    return [n for n in pool if issubclass(uni[n], uni[name])]
+
+
+def gen_conforming(rng, t, exotic: float = 0.0, depth: int = 3):
+    """A JSON value conforming to JSON type t, or None when none can be produced (uninhabited / unlucky).
+    `exotic` = probability of using str/bytes/range/dict views/MultiInputObj where an abstract class allows it."""
+    k = t[0]
+    if k == "any":
+        return gen_any_value(rng, min(depth, 2))
+    if k == "u":
+        alts = list(t[1])
+        rng.shuffle(alts)
+        for a in alts:
+            v = gen_conforming(rng, a, exotic, depth)
+            if v is not None:
+                return v
+        return None
+    if k == "c":
+        c = t[1]
+        if c == "object":
+            return gen_any_value(rng, 1)
+        atoms = _subclasses(c, ATOM_CLASSES)
+        std = _subclasses(c, ["list", "tuple", "set", "frozenset", "dict"])
+        exo = _subclasses(c, ["MultiInputObj", "range", "dict_keys", "dict_values"])
+        if rng.random() >= exotic:
+            atoms = [a for a in atoms if not (a in ("str", "bytes") and c not in ("str", "bytes", "object"))] or (atoms if not std else [])
+            exo = []
+        pool = atoms + std + exo
+        if not pool:
+            return None
+        n = rng.choice(pool)
+        if n in ATOM_CLASSES:
+            return gen_atom(rng, n)
+        m = rng.choice([0, 1, 2, 3])
+        if n == "dict":
+            return ["m", "dict", [gen_atom(rng, "str") for _ in range(m)], [gen_atom(rng) for _ in range(m)]]
+        if n == "range":
+            return ["s", "range", [["a", "int", i] for i in range(m)]]
+        items = [gen_atom(rng) for _ in range(m)]
+        return ["s", n, items]
+    if k == "tv":
+        m = rng.choice([0, 1, 2, 3])
+        items = [gen_conforming(rng, t[1], exotic, depth - 1) for _ in range(m)]
+        return None if any(x is None for x in items) else ["s", "tuple", items]
+    o, args = t[1], t[2]
+    if o == "MultiInputObj":
+        m = rng.choice([0, 1, 2])
+        items = [gen_conforming(rng, args[0], exotic, depth - 1) for _ in range(m)]
+        return None if any(x is None for x in items) else ["s", rng.choice(["list", "list", "MultiInputObj"]), items]
+    if o in MAP_ORIGINS:
+        m = rng.choice([0, 1, 2])
+        ks = [gen_conforming(rng, args[0], exotic, depth - 1) for _ in range(m)]
+        vs = [gen_conforming(rng, args[1], exotic, depth - 1) for _ in range(m)]
+        if any(x is None for x in ks + vs) or not all(_hashable_json(x) for x in ks):
+            return ["m", "dict", [], []]
+        return ["m", "dict", ks, vs]
+    if o == TUPLE_ORIGIN:
+        items = [gen_conforming(rng, a, exotic, depth - 1) for a in args]
+        return None if any(x is None for x in items) else ["s", "tuple", items]
+    # sequence-like origins
+    classes = _subclasses(o, ["list", "tuple", "set", "frozenset"])
+    if rng.random() < exotic:
+        classes = classes + _subclasses(o, ["MultiInputObj", "dict_keys", "dict_values"])
+        if rng.random() < 0.5:
+            uni = universe()
+            # a str IS a Sequence[str]; bytes IS a Sequence[int]; range IS a Sequence[int]
+            if issubclass(str, uni[o]) and args[0] in (["c", "str"], ["any"], ["c", "object"]):
+                return gen_atom(rng, "str")
+            if issubclass(bytes, uni[o]) and args[0] in (["c", "int"], ["any"], ["c", "object"]):
+                return gen_atom(rng, "bytes")
+            if issubclass(range, uni[o]) and args[0] in (["c", "int"], ["any"], ["c", "object"]):
+                return ["s", "range", [["a", "int", i] for i in range(rng.choice([0, 2, 3]))]]
+    if not classes:
+        return None
+    c = rng.choice(classes)
+    m = rng.choice([0, 1, 2, 2, 3])
+    items = [gen_conforming(rng, args[0], exotic, depth - 1) for _ in range(m)]
+    if any(x is None for x in items):
+        items = []
+    if c in ("set", "frozenset", "dict_keys"):
+        items = [x for x in items if _hashable_json(x)]
+    return ["s", c, items]
+
+
+NEIGHBOUR_CLS = {
+    "int": ["float", "bool", "str"], "float": ["int", "str"], "bool": ["int", "str"], "str": ["bytes", "Path", "int", "list"],
+    "bytes": ["str", "list"], "Path": ["str", "PathLike"], "NoneType": ["int", "str"], "list": ["tuple", "set", "str", "dict"],
+    "tuple": ["list", "frozenset"], "set": ["frozenset", "list"], "frozenset": ["set", "tuple"], "dict": ["list", "Mapping"],
+}  # fmt: skip
+
+
+def neighbour_type(rng, t):
+    """A type that differs from t in one place (a sibling class, another origin, an added/dropped tuple slot)."""
+    k = t[0]
+    if k == "any":
+        return gen_basic(rng)
+    if k == "c":
+        return ["c", rng.choice(NEIGHBOUR_CLS.get(t[1], BASIC_COMMON))]
+    if k == "u":
+        i = rng.randrange(len(t[1]))
+        alts = list(t[1])
+        alts[i] = neighbour_type(rng, alts[i])
+        return alts[0] if rng.random() < 0.3 else mk_union(alts)
+    if k == "tv":
+        return rng.choice([["tv", neighbour_type(rng, t[1])], ["g", "list", [t[1]]], ["g", "tuple", [t[1], t[1]]]])
+    o, args = t[1], list(t[2])
+    r = rng.random()
+    if r < 0.5 and args:
+        i = rng.randrange(len(args))
+        args[i] = neighbour_type(rng, args[i])
+        return ["g", o, args]
+    if o in MAP_ORIGINS:
+        return rng.choice([["g", rng.choice(MAP_ORIGINS), args], ["g", "list", [args[0]]]])
+    if o == TUPLE_ORIGIN:
+        return rng.choice([["g", "tuple", args + [args[-1]]], ["g", "list", [args[0]]], ["tv", args[0]]] + ([["g", "tuple", args[:-1]]] if len(args) > 1 else []))
+    return rng.choice([["g", rng.choice([x for x in SEQ_ORIGINS if x != o]), args], ["tv", args[0]], ["g", "tuple", [args[0], args[0]]]])
+
+
+def confusion_value(rng, t):
+    """str where a container is expected and vice versa, bytes, ranges, dict views, sets of the 'wrong' kind."""
+    r = rng.random()
+    if r < 0.30:
+        return gen_atom(rng, "str")
+    if r < 0.40:
+        return gen_atom(rng, "bytes")
+    if r < 0.50:
+        return ["s", "range", [["a", "int", i] for i in range(rng.choice([0, 1, 3]))]]
+    if r < 0.62:
+        items = [gen_atom(rng, rng.choice(["str", "int"])) for _ in range(rng.choice([1, 2, 3]))]
+        return ["s", rng.choice(["dict_keys", "dict_values"]), items]
+    if r < 0.80:
+        items = [gen_atom(rng, rng.choice(["str", "str", "int", "bool", "float"])) for _ in range(rng.choice([0, 1, 2, 3]))]
+        return ["s", rng.choice(["set", "frozenset", "list", "tuple", "MultiInputObj"]), items]
+    if r < 0.90:
+        n = rng.choice([1, 2])
+        return ["m", "dict", [gen_atom(rng, rng.choice(["str", "int", "bool", "float"])) for _ in range(n)], [gen_atom(rng) for _ in range(n)]]
+    # a container of strings / a string inside a container
+    return ["s", rng.choice(["list", "tuple"]), [gen_atom(rng, "str"), rng.choice([gen_atom(rng, "str"), ["s", "list", [gen_atom(rng, "str")]]])]]
+
+
+# --------------------------------------------------------------------------------------
+# C21: excuses and match rules for statically accepted connections that fail at run time
+
+
+def arity_excuse(T, v) -> bool:
+    """'fixed-length tuple arity aside': some position presents an iterable of length != n to tuple[a1..an]."""
+    return _hit(
+        lambda c, x: False,
+        lambda o, x, a: o == TUPLE_ORIGIN and a is not None and len(_elems_json(x)) != len(a),
+        T,
+        v,
+    )
+
+
+def _is_container_json(x):
+    return x[0] in ("s", "m")
+
+
+# classes that pass the static coercibility test as targets but whose constructor cannot be called with the value
+ABSTRACT_TARGETS = {"Sequence", "MutableSequence", "SetABC", "MutableSet", "Mapping", "MutableMapping", "Iterable", "Collection", "PathLike", "range"}
+
+
+def _inst(x, cname) -> bool:
+    uni = universe()
+    return issubclass(uni[x[1]], uni[cname])
+
+
+def d25a_match(T, v) -> bool:
+    """D25 (bytes): a non-bytes container reaches the basic pattern `bytes`."""
+    return _hit(lambda c, x: c == "bytes" and _is_container_json(x), lambda o, x, a: False, T, v)
+
+
+def d25b_match(T, v) -> bool:
+    """D25b (target cannot be built): a value that is not already an instance reaches a class that passes the
+    static coercibility test but cannot be instantiated from it: an abstract class (generic origin or bare class),
+    `range`, or bare `MultiInputObj` given a non-iterable."""
+    return _hit(
+        lambda c, x: (c in ABSTRACT_TARGETS and not _inst(x, c)) or (c == "MultiInputObj" and x[0] == "a" and x[1] not in ("str", "bytes")),
+        lambda o, x, a: o in ABSTRACT_TARGETS and not _inst(x, o),
+        T,
+        v,
+    )
+
+
+def d25d_match(T, v) -> bool:
+    """D25d: a dict reaches a one-argument generic pattern whose origin a dict is an instance of (Iterable,
+    Collection): unpacking the (key, value) patterns raises ValueError, which a Union does not catch."""
+    return _hit(lambda c, x: False, lambda o, x, a: x[0] == "m" and o in ("Iterable", "Collection"), T, v)
+
+
+def _unhashable_after(sac, a, xj) -> bool:
+    from pydra.utils.typing import TypeParser
+
+    try:
+        y = TypeParser(ty_to_py(a), superclass_auto_cast=sac).coerce(val_to_py(xj))
+    except Exception:
+        return False
+    try:
+        hash(y)
+        return False
+    except TypeError:
+        return True
+
+
+def d25c_match(sac, T, v) -> bool:
+    """D25c (unhashable): a pattern that re-builds a set/frozenset (bare set class, generic set origin, or an
+    abstract origin met by a set/frozenset value) or a dict pattern's key position receives an element that is
+    unhashable (after coercion by the element pattern, decided with the real parser)."""
+    setlike = {"set", "frozenset"}
+
+    def pb(c, x):
+        return c in setlike and any(not _hashable_json(e) for e in _elems_json(x))
+
+    def pg(o, x, a):
+        if a is None:
+            return False
+        if len(a) == 1 and (o in setlike or (x[0] == "s" and x[1] in setlike and _inst(x, o))):
+            return any(_unhashable_after(sac, a[0], e) for e in _elems_json(x))
+        if o in MAP_ORIGINS and len(a) == 2 and x[0] == "m":
+            return any(_unhashable_after(sac, a[0], e) for e in x[2])
+        return False
+
+    return _hit(pb, pg, T, v)
